@@ -66,6 +66,12 @@ def groups(tier):
         (10, 100, 64, 127),
         (0, 511, 256, 300),
         (0, 131071, 65536, 70000),
+        # luma and colour-difference depths falling in different byte widths
+        (0, 1023, 128, 255),
+        (0, 255, 512, 1023),
+        (0, 4095, 128, 224),
+        (0, 255, 1 << 19, (1 << 20) - 1),
+        (0, (1 << 24) - 1, 2048, 4095),
     ]
     for c in rc:
         for lo, le, co, ce in ranges:
